@@ -162,6 +162,31 @@ def run(ck: Check) -> int:
                                     s0, e0 = mm.span(gi)
                                     if s0 != -1 and not (0 <= s0 <= e0 <= len(x)):
                                         ck.report(Failing('capture span out of range', {'pattern': plist[0], 'name': x}, 'valid span', (s0, e0)), None)
+                    # the same pattern in the EXCLUSION roles (exclude=, inline `!p`, inline `-p`): its regex lands in the second
+                    # list and must still have one capturing group per extended group (added after seeded change C08b)
+                    p0 = plist[0]
+                    if not p0.startswith(('(', '!', '-')):
+                        efl = (fl | mod.EXTMATCH) & ~(mod.NEGATE | mod.MINUSNEGATE | mod.NEGATEALL)
+                        roles = [('exclude=', lambda: mod.translate(['*'], flags=efl, exclude=[p0])),
+                                 ('inline !', lambda: mod.translate(['*', '!' + p0], flags=efl | mod.NEGATE)),
+                                 ('inline -', lambda: mod.translate(['*', '-' + p0], flags=efl | mod.NEGATE | mod.MINUSNEGATE))]
+                        for rname, call in roles:
+                            try:
+                                rneg = call()[1]
+                            except Exception:  # noqa: BLE001
+                                continue
+                            sr.histogram['capture-count-checked(exclusion roles)'] = sr.histogram.get('capture-count-checked(exclusion roles)', 0) + 1
+                            if len(rneg) != 1:
+                                continue
+                            try:
+                                hv = re.compile(rneg[0]).groups
+                            except re.error as e:
+                                ck.report(Failing(f'translate returned an exclusion regex that does not compile: {e}',
+                                                  {'api': mod.__name__ + '.translate', 'patterns': [p0], 'role': rname, 'flags': efl}, 'compiles', str(e)), None)
+                                continue
+                            if hv != want:
+                                ck.report(Failing(f'translate: {p0!r} as an exclusion ({rname}) has {hv} capturing groups for {want} extended groups',
+                                                  {'api': mod.__name__ + '.translate', 'patterns': [p0], 'role': rname, 'flags': efl, 'regex': rneg[0]}, want, hv), None)
             if len(sr.samples) < 3:
                 sr.samples.append({'api': mod.__name__, 'patterns': plist, 'exclude': excl, 'flags': hex(fl), 'regexes': (pos, neg)})
         # ---- systematic grid: every subset of the list-level flags x list shapes (only exclusions,
